@@ -59,6 +59,33 @@ theorem exchange_completes {Ct} (P : XP Ct) (hP : LawfulXP P) (cc : CCfg) (ct : 
   rw [e] at h
   exact h
 
+/-- The in-tree server never offers a weak `g_a`: whatever its random stream draws, the exponent
+`TestServerRNG.GA` settles on gives `1 < g_a < p − 1` and `2^1984 < g_a < p − 2^1984` — exactly the
+`g_a` part of the client's `CheckDHParams`, so an honest exchange is never aborted for "bad g_a". -/
+theorem server_ga_in_safe_range (p : Nat) (draws : List Nat) (a : Nat) (h : pickA p draws = some a) :
+    1 < 3 ^ a % p ∧ 3 ^ a % p < p - 1 ∧ 2 ^ 1984 < 3 ^ a % p ∧ 3 ^ a % p < p - 2 ^ 1984 := by
+  have hok : gaOK p a = true := by
+    unfold pickA at h
+    exact List.find?_some h
+  unfold gaOK at hok
+  simp only [Bool.and_eq_true] at hok
+  have h1 := inRange_true _ _ _ hok.1
+  have h2 := inRange_true _ _ _ hok.2
+  have hg := server_generator_is_3
+  have hmin : safetyMin = 2 ^ 1984 := by
+    unfold safetyMin; rw [key_size_is_2048]
+  rw [powMod_eq, hg] at h1 h2
+  rw [hmin] at h2
+  exact ⟨h1.1, h1.2, h2.1, h2.2⟩
+
+/-- … and that loop is the one in the source (condition regenerated from exchange/generator.go). -/
+theorem server_ga_loop_tests_both_ranges :
+    Facts.C09.serverGACond =
+      "crypto.InRange(ga, one, dhPrimeMinusOne) && crypto.InRange(ga, safetyRangeMin, safetyRangeMax)" ∧
+    Facts.C09.serverGASafetyMin = "big.NewInt(0).Exp(big.NewInt(2), big.NewInt(crypto.RSAKeyBits-64), nil)" ∧
+    Facts.C09.serverGASafetyMax = "big.NewInt(0).Sub(dhPrime, safetyRangeMin)" := by
+  decide
+
 /-- The client never returns a zero key on success: whatever it was sent, if it completes and the
 dh_prime it accepted really is prime (`CheckDH` tests primality probabilistically; here it is a
 hypothesis), the auth key value `g_a^b mod p` is non-zero and so are its 256 key bytes. -/
